@@ -410,6 +410,17 @@ func c15Create(c *rt.CaseResult, seed int64, idx int, scratch string) [][]tlog {
 				s = time.Since(t0)
 				env.DB.Get(ctxBg, fmt.Sprintf("f%d", g%2))
 				logs[g] = append(logs[g], tlog{"get", s, time.Since(t0)})
+				if i%5 == 0 {
+					// a file whose storing fails (empty key) while the caller keeps writing
+					s = time.Since(t0)
+					if f, err := env.DB.Create(ctxBg, ""); err == nil {
+						for w := 0; w < 6; w++ {
+							f.Write(seqrun.Content(fmt.Sprintf("e%d-%d-%d", g, i, w), 300))
+						}
+						f.Close()
+					}
+					logs[g] = append(logs[g], tlog{"create-failing", s, time.Since(t0)})
+				}
 			}
 		}(g)
 	}
